@@ -170,10 +170,12 @@ def write_shapefile(
         for i, polygon in enumerate(dataset.ems.polygons):
             if polygon is None:
                 continue
+            # Positional, in field order: field names longer than ten
+            # characters are truncated by the writer and no longer match
             writer.record(
-                name=f'polygon{i}',
-                linear_index=i,
-                index=json.dumps(dataset.ems.wind_index(i)),
+                f'polygon{i}',
+                i,
+                json.dumps(dataset.ems.wind_index(i)),
             )
             writer.shape(polygon.__geo_interface__)
 
